@@ -6,8 +6,9 @@
 On success the change is kept as /verif/seeded/<Cxx>-<k>/ (patch.diff, demo.cpp, README.md, meta.json)."""
 import json, os, re, shutil, subprocess, sys
 pid, k = sys.argv[1], sys.argv[2]
-wt = "/tmp/mut_%s" % pid.lower()
-src = "/tmp/mut_%s_out/%s" % (pid.lower(), k)
+sfx = os.environ.get("MUT_SFX", "")
+wt = "/tmp/mut_%s%s" % (pid.lower(), sfx)
+src = "/tmp/mut_%s%s_out/%s" % (pid.lower(), sfx, k)
 ROOT = os.path.dirname(os.path.dirname(os.path.abspath(__file__)))
 def sh(cmd, **kw):
     p = subprocess.run(cmd, shell=True, stdout=subprocess.PIPE, stderr=subprocess.STDOUT, **kw)
@@ -20,9 +21,9 @@ def step(name, cmd):
 sh("git -C %s checkout -- ." % wt)
 demo_src = open(os.path.join(src, "demo.cpp")).read()
 head = "\n".join(demo_src.splitlines()[:40])
-extra = sorted(set(re.findall(r"(/tmp/mut_%s/rkcommon/\S+?\.cpp)" % pid.lower(), head)))
+extra = sorted(set(re.findall(r"(/tmp/mut_%s%s/rkcommon/\S+?\.cpp)" % (pid.lower(), sfx), head)))
 gline = next((l for l in head.splitlines() if "g++" in l), "")
-extra = sorted(set(re.findall(r"(/tmp/mut_%s/rkcommon/\S+?\.cpp)" % pid.lower(), gline))) or extra
+extra = sorted(set(re.findall(r"(/tmp/mut_%s%s/rkcommon/\S+?\.cpp)" % (pid.lower(), sfx), gline))) or extra
 opt = re.search(r"(-O\d)", gline)
 flags = "-std=c++11 %s -I%s -I%s/_b -I%s/.cache/inc -pthread" % (opt.group(1) if opt else "", wt, wt, ROOT)
 # backend / configuration switches and libraries named on the demo's own compile line
@@ -53,7 +54,7 @@ verdict = dict(applies=True, tests_pass_with_change=ok, demo_passes_without=(rc0
 confirmed = ok and rc0 == 0 and rc1 not in (0, None)
 print(pid, k, "CONFIRMED" if confirmed else "NOT CONFIRMED", verdict)
 if confirmed:
-    dst = os.path.join(ROOT, "seeded", "%s-%s" % (pid, k))
+    dst = os.path.join(ROOT, "seeded", "%s-%s%s" % (pid, sfx.strip("_") + ("-" if sfx else ""), k))
     os.makedirs(dst, exist_ok=True)
     for f in ("patch.diff", "demo.cpp", "README.md"):
         shutil.copy(os.path.join(src, f), dst)
